@@ -12,6 +12,7 @@ import Stevia.Proofs.BytesRT
 import Stevia.Model.ArraySetLayout
 import Stevia.Proofs.GenTreeRefine32
 import Stevia.Proofs.GenTreeRefine8
+import Stevia.Proofs.GenViewsFmt
 
 namespace Stevia.C10
 open Stevia
@@ -166,5 +167,49 @@ theorem translated_source_keeps_format_u8 (kd : α) (vd : β) (s : Tree α β) (
   obtain ⟨s1, r1, h1, _, e1⟩ := Gen8.transition_insert kd vd s h k v
   obtain ⟨s2, r2, h2, _, e2⟩ := Gen8.transition_remove kd vd s h k
   exact ⟨⟨s1, r1, h1, e1⟩, ⟨s2, r2, h2, e2⟩⟩
+
+/-- `data_len` through the translator: the three `data_len` functions of the current source are header plus `c`
+    records — the model's `dataLen` for every key/value layout; a buffer of that size is accepted by the view
+    constructors with exactly `c` records, and no size strictly between `data_len(c)` and `data_len(c+1)` is accepted. -/
+theorem translated_data_len (ft : TreeFmt) (fh : HFmt) (c : Nat) :
+    GenV.avl32_data_len ft.hdrSize ft.recSize c = ft.dataLen c ∧
+    GenV.avl8_data_len ft.hdrSize ft.recSize c = ft.dataLen c ∧
+    GenV.hset_data_len fh.hdrSize fh.recSize c = fh.dataLen c ∧
+    (∀ H R (b : ByteArray), 0 < R → b.size = GenV.avl32_data_len H R c →
+        ∃ a n, GenV.avl32_from_bytes_mut H R b = some (a, n) ∧ a.size = H ∧ n.size = c * R) ∧
+    (∀ H R (b : ByteArray), GenV.avl32_data_len H R c < b.size → b.size < GenV.avl32_data_len H R (c + 1) →
+        GenV.avl32_from_bytes_mut H R b = none) := by
+  refine ⟨rfl, rfl, rfl, ?_, ?_⟩
+  · intro H R b hR hb
+    rw [GenV.avl32_from_bytes_mut_eq]
+    exact View.split_dataLen hR hb
+  · intro H R b h1 h2
+    rw [GenV.avl32_from_bytes_mut_eq]
+    exact View.split_between h1 h2
+
+/-- "Register/Field enums index the word arrays", through the translator: the twelve accessors of the current source
+    (`get_field`, `set_field`, `get_register`, `set_register` of both trees and the hash set) are plain indexing into the
+    word array — a write is read back and changes no other word — and, with the variants numbered in declaration order
+    (`source_facts_are_documented_format`), the words they select are the header and record fields of the register image
+    in the documented order: root, size, capacity, free-list head, sequence; left, right, height; bucket head, next. -/
+theorem translated_accessors_index_the_words (ws : List Nat) (i v : Nat) {α β : Type} (rc : Rec α β) (h : Hdr) :
+    GenV.avl32_get_register ws i = View.getWord ws i ∧ GenV.avl32_set_register ws i v = View.setWord ws i v ∧
+    GenV.avl32_get_field ws i = View.getWord ws i ∧ GenV.avl32_set_field ws i v = View.setWord ws i v ∧
+    GenV.avl8_get_register ws i = View.getWord ws i ∧ GenV.avl8_set_register ws i v = View.setWord ws i v ∧
+    GenV.avl8_get_field ws i = View.getWord ws i ∧ GenV.avl8_set_field ws i v = View.setWord ws i v ∧
+    GenV.hset_get_register ws i = View.getWord ws i ∧ GenV.hset_set_register ws i v = View.setWord ws i v ∧
+    GenV.hset_get_field ws i = View.getWord ws i ∧ GenV.hset_set_field ws i v = View.setWord ws i v ∧
+    (∀ ws', View.setWord ws i v = some ws' →
+      View.getWord ws' i = some v ∧ (∀ j, j ≠ i → View.getWord ws' j = View.getWord ws j) ∧ ws'.length = ws.length) ∧
+    GenV.avl32_get_register (View.recWords rc) 0 = some rc.left ∧ GenV.avl32_get_register (View.recWords rc) 1 = some rc.right ∧
+    GenV.avl32_get_register (View.recWords rc) 2 = some rc.height ∧
+    GenV.avl32_set_register (View.recWords rc) 2 v = some (View.recWords { rc with height := v }) ∧
+    GenV.avl32_get_field (View.hdrWords h) 0 = some h.root ∧ GenV.avl32_get_field (View.hdrWords h) 1 = some h.size ∧
+    GenV.avl32_get_field (View.hdrWords h) 2 = some h.cap ∧ GenV.avl32_get_field (View.hdrWords h) 3 = some h.flh ∧
+    GenV.avl32_get_field (View.hdrWords h) 4 = some h.seq ∧
+    GenV.avl32_set_field (View.hdrWords h) 2 v = some (View.hdrWords { h with cap := v }) := by
+  obtain ⟨a1, a2, a3, a4, a5, a6, a7, a8, a9, a10, a11, a12⟩ := GenV.accessors_eq ws i v
+  exact ⟨a3, a4, a1, a2, a7, a8, a5, a6, a11, a12, a9, a10, fun ws' hs => View.setWord_spec hs,
+    rfl, rfl, rfl, rfl, rfl, rfl, rfl, rfl, rfl, rfl⟩
 
 end Stevia.C10
